@@ -17,7 +17,7 @@
 from __future__ import annotations
 
 import re
-from collections.abc import Callable, Iterator, Sequence, Set
+from collections.abc import Callable, Iterable, Iterator, Sequence, Set
 from typing import TYPE_CHECKING
 
 import numpy as np
@@ -224,9 +224,7 @@ class QasmOutput:
         self.operations = tuple(ops.flatten_to_ops(operations))
         self.qubits = qubits
         self.header = header
-        self.measurements = tuple(
-            op for op in self.operations if isinstance(op.gate, ops.MeasurementGate)
-        )
+        self.measurements = tuple(self._find_measurements(self.operations))
         meas_key_id_map, meas_comments = self._generate_measurement_ids()
         self.meas_comments = meas_comments
         qubit_id_map = self._generate_qubit_ids()
@@ -238,6 +236,17 @@ class QasmOutput:
             meas_key_id_map=meas_key_id_map,
             meas_key_bitcount={k: v[0] for k, v in self.cregs.items()},
         )
+
+    def _find_measurements(self, operations: Iterable[cirq.Operation]) -> Iterator[cirq.Operation]:
+        # Measurements are also reached through operations that are written out by decomposition
+        # (sub-circuits, Pauli measurements); each of them needs a classical register.
+        for op in operations:
+            if isinstance(op.gate, ops.MeasurementGate):
+                yield op
+            elif protocols.is_measurement(op):
+                yield from self._find_measurements(
+                    ops.flatten_to_ops(protocols.decompose_once(op, default=()))
+                )
 
     def _generate_measurement_ids(self) -> tuple[dict[str, str], dict[str, str | None]]:
         # Pick an id for the creg that will store each measurement
